@@ -33,6 +33,31 @@ type Mut struct {
 
 var mutOps = []string{"paren", "comment", "alias", "block", "closure", "extract", "dupfunc", "reorder", "header"}
 
+// freeOps rewrite an option so that it is still type-correct Go but no longer
+// has the literal shape cff documents (an option held in a variable, spread
+// from a slice, converted, called through a parenthesised function, built by a
+// closure). Whether cff supports the shape is not fixed by the listed
+// properties: the verdict is free, but cff must not crash, a rejection must
+// come with a positioned diagnostic and no output, and an accepted program
+// must compile.
+//
+//	optvar     o := cff.Task(...); cff.Flow(ctx, o)
+//	optspread  cff.Flow(ctx, []cff.Option{a, b}...)
+//	optconv    cff.Option(cff.Task(...))
+//	optparenfn (cff.Task)(f)
+//	optclosure func() cff.Option { return cff.Task(...) }()
+//	toptvar    to := cff.Invoke(true); cff.Task(f, to)
+var freeOps = []string{"optvar", "optspread", "optconv", "optparenfn", "optclosure", "toptvar"}
+
+func isFreeOp(op string) bool {
+	for _, f := range freeOps {
+		if f == op {
+			return true
+		}
+	}
+	return false
+}
+
 type edit struct {
 	pos, end int
 	text     string
@@ -320,6 +345,90 @@ func ApplyMut(src []byte, m Mut) (out []byte, label string, ok bool) {
 			eds = append(eds, edit{fi.off(o.Pos()), fi.off(o.End()), fi.text(opts[(i+k)%len(opts)])})
 		}
 		return applyEdits(src, eds), "reorder", true
+	case "optvar", "optconv", "optparenfn", "optclosure":
+		type cand struct {
+			o *ast.CallExpr
+			s ast.Stmt
+		}
+		var cs []cand
+		for _, d := range ds {
+			s := fi.stmtOf(d)
+			for _, a := range d.Args[1:] {
+				if oc, ok := fi.isCffCall(a); ok {
+					cs = append(cs, cand{oc, s})
+				}
+			}
+		}
+		if len(cs) == 0 {
+			return src, "", false
+		}
+		c := cs[pick(len(cs))]
+		t := fi.text(c.o)
+		switch m.Op {
+		case "optvar":
+			if c.s == nil {
+				return src, "", false
+			}
+			name := fmt.Sprintf("mopt%d", strings.Count(string(src), "mopt"))
+			return applyEdits(src, []edit{
+				{fi.off(c.o.Pos()), fi.off(c.o.End()), name},
+				{fi.off(c.s.Pos()), fi.off(c.s.Pos()), name + " := " + t + "\n"},
+			}), "optvar", true
+		case "optconv":
+			return applyEdits(src, []edit{{fi.off(c.o.Pos()), fi.off(c.o.End()), fi.cffName + ".Option(" + t + ")"}}), "optconv", true
+		case "optparenfn":
+			fn := fi.text(c.o.Fun)
+			return applyEdits(src, []edit{{fi.off(c.o.Fun.Pos()), fi.off(c.o.Fun.End()), "(" + fn + ")"}}), "optparenfn", true
+		default:
+			return applyEdits(src, []edit{{fi.off(c.o.Pos()), fi.off(c.o.End()), "func() " + fi.cffName + ".Option {\nreturn " + t + "\n}()"}}), "optclosure", true
+		}
+	case "optspread":
+		var cs []*ast.CallExpr
+		for _, d := range ds {
+			if len(d.Args) >= 2 && !d.Ellipsis.IsValid() {
+				cs = append(cs, d)
+			}
+		}
+		if len(cs) == 0 {
+			return src, "", false
+		}
+		d := cs[pick(len(cs))]
+		first, last := d.Args[1], d.Args[len(d.Args)-1]
+		// keep a trailing comma of the original argument list inside the literal
+		return applyEdits(src, []edit{
+			{fi.off(first.Pos()), fi.off(first.Pos()), "[]" + fi.cffName + ".Option{"},
+			{fi.off(last.End()), fi.off(last.End()), "}..."},
+		}), "optspread", true
+	case "toptvar":
+		type cand struct {
+			o *ast.CallExpr
+			s ast.Stmt
+		}
+		var cs []cand
+		for _, d := range ds {
+			s := fi.stmtOf(d)
+			if s == nil {
+				continue
+			}
+			for _, a := range d.Args[1:] {
+				if oc, ok := fi.isCffCall(a, "Task"); ok && len(oc.Args) >= 2 {
+					for _, ta := range oc.Args[1:] {
+						if tc, ok := fi.isCffCall(ta); ok {
+							cs = append(cs, cand{tc, s})
+						}
+					}
+				}
+			}
+		}
+		if len(cs) == 0 {
+			return src, "", false
+		}
+		c := cs[pick(len(cs))]
+		name := fmt.Sprintf("mtopt%d", strings.Count(string(src), "mtopt"))
+		return applyEdits(src, []edit{
+			{fi.off(c.o.Pos()), fi.off(c.o.End()), name},
+			{fi.off(c.s.Pos()), fi.off(c.s.Pos()), name + " := " + fi.text(c.o) + "\n"},
+		}), "toptvar", true
 	case "header":
 		// the header is everything before the package clause
 		pkgOff := fi.off(fi.f.Package)
